@@ -31,6 +31,7 @@ let dispatch kind fields =
   | "SESS" -> K_sess.run_sess fields
   | "VISO" -> K_viso.run_viso fields
   | "ENC" -> K_enc.run_enc fields
+  | "NOMODEL" -> "NOMODEL"
   | _ -> failwith ("unknown kind " ^ kind)
 
 let () =
